@@ -492,7 +492,9 @@ fn exec_timeline(w: &mut World, mem: &mut Memvid, i: usize, spec: &TimelineSpec)
     let got = match mem.timeline(q) {
         Ok(g) => g,
         Err(e) => {
-            w.viol(&["C15"], "timeline-runs", format!("timeline failed: {}", errs(&e)), i);
+            // on a reopened or read-only handle the answer comes from the persisted time index (C28)
+            let persisted = w.ro || w.reopened_since_mutation;
+            w.viol(if persisted { &["C15", "C28"] } else { &["C15"] }, "timeline-runs", format!("timeline failed{}: {}", if persisted { " on a handle that reads the persisted time index" } else { "" }, errs(&e)), i);
             return (false, false, Some(errs(&e)));
         }
     };
@@ -523,6 +525,9 @@ fn exec_timeline(w: &mut World, mem: &mut Memvid, i: usize, spec: &TimelineSpec)
         let d = gotk.iter().zip(exp.iter()).position(|(a, b)| a != b).unwrap_or(gotk.len().min(exp.len()));
         let sig = if has_images { "with-extracted-images" } else { "" };
         let mut props = vec!["C15"];
+        if w.ro || w.reopened_since_mutation {
+            props.push("C28");
+        }
         if gotk.iter().any(|(_, id)| model.frames.get(*id as usize).is_some_and(|f| f.st != St::Active)) {
             props.push("C08");
         }
